@@ -42,24 +42,28 @@ def insertCopies (segs : List Seg) (pos : Nat) (x : Seg) (n : Nat) : List Seg :=
 def removeN (segs : List Seg) (pos : Nat) (n : Nat) : List Seg :=
   segs.take pos ++ segs.drop (pos + n)
 
+/-- the stress `apply_syll_mods` computes (syll.rs:188-207) -/
+def newStress (σ : Syll) (al : Alphas) (mods : SupraSegs) : Res Stress :=
+  match mods.stress, mods.secStress with
+  | none, none => .ok σ.stress
+  | none, some sec => do
+    let b ← sec.asBool al
+    pure (if b then .secondary else if σ.stress = .secondary then .unstressed else σ.stress)
+  | some prim, none => do
+    let b ← prim.asBool al
+    pure (if b then .primary else .unstressed)
+  | some prim, some sec => do
+    let p ← prim.asBool al
+    let s ← sec.asBool al
+    match p, s with
+    | true, true => pure .secondary
+    | true, false => pure .primary
+    | false, false => pure .unstressed
+    | false, true => .err "SecStrPosStrNeg"
+
 /-- `apply_syll_mods` (syll.rs:187-214) -/
 def applySyllMods (σ : Syll) (al : Alphas) (mods : SupraSegs) : Res Syll := do
-  let stress ← (match mods.stress, mods.secStress with
-    | none, none => (.ok σ.stress : Res Stress)
-    | none, some sec => do
-      let b ← sec.asBool al
-      pure (if b then .secondary else if σ.stress = .secondary then .unstressed else σ.stress)
-    | some prim, none => do
-      let b ← prim.asBool al
-      pure (if b then .primary else .unstressed)
-    | some prim, some sec => do
-      let p ← prim.asBool al
-      let s ← sec.asBool al
-      match p, s with
-      | true, true => pure .secondary
-      | true, false => pure .primary
-      | false, false => pure .unstressed
-      | false, true => .err "SecStrPosStrNeg")
+  let stress ← σ.newStress al mods
   pure { σ with stress := stress, tone := (match mods.tone with | some t => t | none => σ.tone) }
 
 /-- `while seg_len < t { insert(pos, seg); seg_len += 1; len_change += 1 }` -/
